@@ -107,6 +107,9 @@ def in_rec(tier):
         one = 1 << f; half = 1 << (l - 1)
         for b in range(-half, half):
             if b and abs(Fraction(one * one, b)) < half - 40: yield (l, f, b)
+    if tier == 'quick':          # the smallest divisors of SecFxp(16,8) (where the listed finding shows) also in the quick tier
+        for b in (3, -3, 5, 7, -11, 13, 100, -200, 255, 256, 257, 1000, -30000):
+            yield (16, 8, b)
 
 
 def call_sincos(l, f, a):
